@@ -52,13 +52,16 @@ pub fn filter_matches<L: Locale>(requested: &[LanguageIdentifier], available: &[
     let mut available_locales: Vec<L> = available.to_vec();
 
     for req in requested.iter().cloned() {
+        // matches of this request only: the order of the requests is the user's order of preference
+        let mut matches = vec![];
+
         macro_rules! test_strategy {
             ($self_as_range:expr) => {{
                 let mut match_found = false;
                 available_locales.retain(|locale| {
                     if lang_id_matches(&locale, &req, $self_as_range, false) {
                         match_found = true;
-                        supported_locales.push(*locale);
+                        matches.push(*locale);
                         return false;
                     }
                     true
@@ -72,18 +75,21 @@ pub fn filter_matches<L: Locale>(requested: &[LanguageIdentifier], available: &[
         // 2) Try to match against the available locales treated as ranges.
         test_strategy!(true);
 
+        // most specific first, among the matches of the same request
+        matches.sort_by(|x, y| {
+            let x_specificity = into_specificity(x.as_ref());
+            let y_specificity = into_specificity(y.as_ref());
+            x_specificity.cmp(&y_specificity).reverse()
+        });
+
+        supported_locales.append(&mut matches);
+
         // Per Unicode TR35, 4.4 Locale Matching, we don't add likely subtags to
         // requested locales, so we'll skip it from the rest of the steps.
         if req.language.is_empty() {
             continue;
         }
     }
-
-    supported_locales.sort_by(|x, y| {
-        let x_specificity = into_specificity(x.as_ref());
-        let y_specificity = into_specificity(y.as_ref());
-        x_specificity.cmp(&y_specificity).reverse()
-    });
 
     supported_locales
 }
